@@ -1,4 +1,4 @@
-\* C40 behaviour generator, scenario "mint": one shortest call sequence per distinct staging state
+\* C40 behaviour generator, scenario "mint": every builder call from every distinct staging state (reached by a shortest call sequence)
 CONSTANTS
   Scenario = "mint"
   MaxOps = 3
@@ -23,6 +23,6 @@ CONSTANTS
 INIT MCInit
 NEXT MCNext
 VIEW View
-INVARIANTS BuildConforms MintNeverZero InputsSorted PointersCanonicalWhenNoDuplicates Emit
+INVARIANTS BuildConforms MintNeverZero InputsSorted PointersCanonicalWhenNoDuplicates
 PROPERTY RefinesSpec
 CHECK_DEADLOCK FALSE
